@@ -95,7 +95,7 @@ func runC11(tier string) int {
 		return run.Finish()
 	}
 	c := &c11{run: run, bin: bin, base: filepath.Join(ev.ScratchDir(), "c11"), tgts: targets(), ext: &extOracles{},
-		sigSeen: map[string]int{}, crashSeen: map[string]int{}, goSubs: map[string]*comp{}, outIndex: map[string]*comp{}}
+		hangConfirmed: map[string]bool{}, sigSeen: map[string]int{}, crashSeen: map[string]int{}, goSubs: map[string]*comp{}, outIndex: map[string]*comp{}}
 	os.MkdirAll(c.base, 0o755)
 
 	witnesses, err := loadWitnesses()
@@ -128,6 +128,21 @@ func runC11(tier string) int {
 		}
 		addProgram(fmt.Sprintf("core-%d", i), "core", "", "", p, style)
 	}
+	// quick tier: many more core programs for the go target only.  Emitted Go
+	// is the one output that is fully type-checked, and batched go builds are
+	// cheap: one harness module per 40 programs.
+	ngo := 0
+	if !run.Thorough() {
+		ngo = 100
+	}
+	for i := 0; i < ngo; i++ {
+		rng := run.Rand(fmt.Sprintf("c11-core-go-%d", i))
+		cfg := idl.CoreConfig()
+		cfg.MinFiles = 2 // cross-file references are where type resolution goes wrong
+		p := idl.Generate(rng, cfg)
+		addProgram(fmt.Sprintf("core-go-%d", i), "core-go", "", "", p, idl.DefaultStyle())
+	}
+	run.Set("programs_core_go_target_only", ngo)
 	classPresent := map[string]int{}
 	for _, sc := range stressClasses() {
 		for i := 0; i < nstress; i++ {
@@ -157,7 +172,10 @@ func runC11(tier string) int {
 	run.Set("distinct_feature_vectors", len(featVectors))
 
 	// select (target, option set) pairs per unit; json/plain first as the gate
-	const goBatch = 14
+	goBatch := 14
+	if !run.Thorough() {
+		goBatch = 40
+	}
 	unitComps := map[*unit][]*comp{}
 	for _, u := range units {
 		if err := c.writeUnit(u); err != nil {
@@ -197,6 +215,9 @@ func runC11(tier string) int {
 		add(jsonT, jsonT.Sets[0])
 		for ti, t := range c.tgts {
 			var sets []optSet
+			if u.Pool == "core-go" && t.Name != "go" {
+				continue
+			}
 			switch {
 			case u.Pool == "witness":
 				// plain and the richest option set of the target
